@@ -48,12 +48,21 @@ CONSTANTS MaxT,        \* clock runs 0..MaxT
           MintPlaces,  \* <<server, hostname>> pairs at which challenges are minted
           Explicit,    \* see above
           CHost,       \* the hostname C talks to when ~Explicit
-          Rich         \* richer attacker menus (more wrong signatures, more keys)
+          Rich,        \* richer attacker menus (more wrong signatures, more keys)
+          AliasHosts,  \* {} or {"h1a"}: a further hostname that a careless normalisation would identify with
+                       \* "h1" (other port, letter case, trailing dot, ...); to the protocol it is just another name
+          CliHosts,    \* hostnames C opens exchanges with
+          SeqSessions, \* C starts a new exchange only when the previous one is over (done / token answered)
+          StaleStart,  \* exchanges may start in the server-initiated flow (C holds a token the server refuses)
+          Careless     \* FALSE always; TRUE only in the self-test that the model can express the alias attack:
+                       \* C's token cache is then keyed by the normalised hostname
 
 None == "none"
 Servers == {"S", "S2"}
-Hosts == {"h1", "h2"}
-OtherHost(h) == IF h = "h1" THEN "h2" ELSE "h1"
+Hosts == {"h1", "h2"} \cup AliasHosts
+\* the name most easily confused with h: the alias relation is what the attacker plays on
+OtherHost(h) == IF h = "h1" THEN (IF AliasHosts # {} THEN "h1a" ELSE "h2") ELSE "h1"
+Norm(h) == IF Careless /\ h \in AliasHosts THEN "h1" ELSE h
 SrvKey(s) == IF s = "S" \/ S2SameKey THEN "kS" ELSE "kS2"
 SrvKeys == {SrvKey(s) : s \in Servers}
 ANonce == 99
@@ -64,10 +73,12 @@ VARIABLES now,    \* clock
           cli,    \* honest client session [st, host, chS, spk]
           ncli,   \* sessions started
           cn,     \* challenge-server values C has generated
+          cache,  \* C's token cache (auth/client.go tokenMap): [host, spk, chS] = for hostname host C holds a
+                  \* bearer token and remembers server key spk, obtained in the exchange whose challenge was chS
           op      \* output only: last action, arguments, expected observable result
 
-vars == <<now, ops, sigs, cli, ncli, cn, op>>
-View == <<now, ops, sigs, cli, ncli, cn>>
+vars == <<now, ops, sigs, cli, ncli, cn, cache, op>>
+View == <<now, ops, sigs, cli, ncli, cn, cache>>
 
 Chal(s, h, c, pk, t) == [mac |-> s, tok |-> FALSE, cpk |-> pk, pid |-> None, ch |-> c, host |-> h, t |-> t]
 Tok(s, h, p, t) == [mac |-> s, tok |-> TRUE, cpk |-> None, pid |-> p, ch |-> 0, host |-> h, t |-> t]
@@ -80,14 +91,14 @@ NMint == Cardinality(Chals)
 NTok == Cardinality({o \in ops : o.tok})
 ChalNonces == {o.ch : o \in Chals}
 
-Init == /\ now = 0 /\ ops = {} /\ sigs = {} /\ ncli = 0 /\ cn = 0
+Init == /\ now = 0 /\ ops = {} /\ sigs = {} /\ ncli = 0 /\ cn = 0 /\ cache = {}
         /\ cli = [st |-> "idle", host |-> "h1", chS |-> 0, spk |-> None]
         /\ op = [name |-> "init"]
 
 \* time only matters once something carries a timestamp
 Tick == /\ now < MaxT /\ ops # {}
         /\ now' = now + 1
-        /\ UNCHANGED <<ops, sigs, cli, ncli, cn>>
+        /\ UNCHANGED <<ops, sigs, cli, ncli, cn, cache>>
         /\ op' = [name |-> "tick"]
 
 AddSigs(G) == sigs' = IF Explicit THEN sigs \cup G ELSE sigs
@@ -100,7 +111,7 @@ Challenge(s, h) ==
   /\ LET o == Chal(s, h, NMint + 1, None, now) IN
      /\ ops' = ops \cup {o}
      /\ op' = [name |-> "challenge", srv |-> s, host |-> h, o |-> o]
-  /\ UNCHANGED <<now, sigs, cli, ncli, cn>>
+  /\ UNCHANGED <<now, sigs, cli, ncli, cn, cache>>
 
 (* challenge-server + public-key: state SignChallenge (client-initiated flow).  The server signs    *)
 (* whatever challenge and public key it is handed, and binds the public key into the opaque.        *)
@@ -111,7 +122,7 @@ SignChallenge(s, h, c, pk) ==
      /\ ops' = ops \cup {o}
      /\ AddSigs({g})
      /\ op' = [name |-> "sign", srv |-> s, host |-> h, c |-> c, pk |-> pk, o |-> o, sig |-> g]
-  /\ UNCHANGED <<now, cli, ncli, cn>>
+  /\ UNCHANGED <<now, cli, ncli, cn, cache>>
 
 (* sig + opaque: state VerifyChallenge.  o is the blob as the server sees it, g the presented       *)
 (* signature, pk the public-key parameter (None = absent), c the challenge-server parameter          *)
@@ -168,7 +179,7 @@ Verify(s, h, o, g, pk, c) ==
      ELSE UNCHANGED <<ops, sigs>>
   /\ op' = [name |-> "verify", srv |-> s, host |-> h, o |-> o, sig |-> g, pk |-> pk, c |-> c, alt |-> None,
             res |-> res, peer |-> IF res = "ok" THEN VKey(o, pk) ELSE None]
-  /\ UNCHANGED <<now, cli, ncli, cn>>
+  /\ UNCHANGED <<now, cli, ncli, cn, cache>>
 
 (* single alteration of a request that would be accepted: field f of the opaque / the signature /  *)
 (* the public key is changed (the harness runs each over every byte).  Any change of the blob makes  *)
@@ -180,7 +191,7 @@ VerifyAlt(s, h, o, g, pk, c, f) ==
   /\ VerifyRes(s, h, o, g, pk, c) = "ok"
   /\ op' = [name |-> "verify", srv |-> s, host |-> h, o |-> o, sig |-> g, pk |-> pk, c |-> c, alt |-> f,
             res |-> IF f \in OpaqueAlts THEN "hmac" ELSE "sig", peer |-> None]
-  /\ UNCHANGED <<now, ops, sigs, cli, ncli, cn>>
+  /\ UNCHANGED <<now, ops, sigs, cli, ncli, cn, cache>>
 
 (* bearer: state VerifyBearer.  The hostname is not compared on this path (as in the code). *)
 BearerRes(s, o) ==
@@ -193,28 +204,42 @@ Bearer(s, h, o) ==
   LET res == BearerRes(s, o) IN
   /\ op' = [name |-> "bearer", srv |-> s, host |-> h, o |-> o, alt |-> None, res |-> res,
             peer |-> IF res = "ok" THEN o.pid ELSE None]
-  /\ UNCHANGED <<now, ops, sigs, cli, ncli, cn>>
+  /\ UNCHANGED <<now, ops, sigs, cli, ncli, cn, cache>>
 
 BearerAlt(s, h, o, f) ==
   /\ BearerRes(s, o) = "ok"
   /\ op' = [name |-> "bearer", srv |-> s, host |-> h, o |-> o, alt |-> f, res |-> "hmac", peer |-> None]
-  /\ UNCHANGED <<now, ops, sigs, cli, ncli, cn>>
+  /\ UNCHANGED <<now, ops, sigs, cli, ncli, cn, cache>>
 
 (* ------------------------------- honest client C ------------------------------- *)
 
 (* a new AuthenticatedDo: client-initiated ("ci": no token for the hostname) or server-initiated   *)
 (* ("si": the token was rejected with 401, the client answers the server's challenge)               *)
+CacheFor(h) == {e \in cache : Norm(e.host) = Norm(h)}
 CStart(h, mode) ==
   /\ ncli < MaxCli
   /\ Explicit \/ h = CHost
+  /\ SeqSessions => cli.st \in {"idle", "done", "tdone"}
+  /\ mode = "tok" <=> CacheFor(h) # {}       \* a cached token is always tried first
+  /\ mode = "si" => StaleStart
   /\ ncli' = ncli + 1
   /\ IF mode = "ci"
      THEN /\ cli' = [st |-> "vas", host |-> h, chS |-> 11 + cn, spk |-> None]
           /\ cn' = cn + 1
-     ELSE /\ cli' = [st |-> "sc", host |-> h, chS |-> 0, spk |-> None]
+     ELSE /\ cli' = [st |-> IF mode = "tok" THEN "tok" ELSE "sc", host |-> h, chS |-> 0, spk |-> None]
           /\ cn' = cn
-  /\ op' = [name |-> "cstart", host |-> h, mode |-> mode, chS |-> cli'.chS]
-  /\ UNCHANGED <<now, ops, sigs>>
+  /\ op' = [name |-> "cstart", host |-> h, mode |-> mode, chS |-> cli'.chS,
+            tokhost |-> IF mode = "tok" THEN (CHOOSE e \in CacheFor(h) : TRUE).host ELSE None]
+  /\ UNCHANGED <<now, ops, sigs, cache>>
+
+(* the token was sent and the answer is not a 401: C takes the peer it remembers for this cache entry *)
+CTokOther(status) ==
+  /\ cli.st = "tok"
+  /\ LET e == CHOOSE x \in CacheFor(cli.host) : TRUE IN
+     /\ cli' = [cli EXCEPT !.st = "tdone", !.spk = e.spk]
+     /\ op' = [name |-> "ctok", host |-> cli.host, status |-> status, res |-> "reported", reports |-> e.spk,
+               entry |-> e.host]
+  /\ UNCHANGED <<now, ops, sigs, ncli, cn, cache>>
 
 \* signatures A can present to C
 AttSrvSigs ==
@@ -235,9 +260,9 @@ ChalsForC == {0, ANonce} \cup ChalNonces
 (* ParseHeader keeps the FIRST server public key it ever saw (spk is sticky), its error is ignored   *)
 (* by the caller (auth/client.go), Run decides.                                                      *)
 CWww(c, pk, g) ==
-  /\ cli.st \in {"vas", "sc"}
+  /\ cli.st \in {"vas", "sc", "tok"}      \* "tok": the 401 that refuses the token carries the challenge
   /\ LET spk1 == IF cli.spk = None /\ pk # None THEN pk ELSE cli.spk
-         fallback == cli.st = "sc" \/ (g = NoSig /\ c # 0)
+         fallback == cli.st \in {"sc", "tok"} \/ (g = NoSig /\ c # 0)
          mine == Sg("kC", "cli", c, spk1, cli.host)
      IN
      IF fallback
@@ -261,15 +286,18 @@ CWww(c, pk, g) ==
                /\ UNCHANGED <<cn, sigs>>
                /\ op' = [name |-> "cwww", c |-> c, pk |-> pk, sig |-> g, alt |-> None, res |-> "err", reports |-> None,
                          signed |-> NoSig]
-  /\ UNCHANGED <<now, ops, ncli>>
+  /\ UNCHANGED <<now, ops, ncli, cache>>
 
 (* Authentication-Info received in state VerifyChallenge ("vc") or WaitingForBearer ("wfb") *)
 CInfo(g) ==
   /\ cli.st \in {"vc", "wfb"}
   /\ IF cli.st = "wfb" \/ g = Sg(cli.spk, "srv", cli.chS, "kC", cli.host)
      THEN /\ cli' = [cli EXCEPT !.st = "done"]
+          \* the exchange succeeded: token and server key are remembered for this hostname
+          /\ cache' = {e \in cache : Norm(e.host) # Norm(cli.host)}
+                         \cup {[host |-> cli.host, spk |-> cli.spk, chS |-> cli.chS]}
           /\ op' = [name |-> "cinfo", sig |-> g, alt |-> None, res |-> "done", reports |-> cli.spk]
-     ELSE /\ cli' = cli
+     ELSE /\ cli' = cli /\ cache' = cache
           /\ op' = [name |-> "cinfo", sig |-> g, alt |-> None, res |-> "err", reports |-> None]
   /\ UNCHANGED <<now, ops, sigs, ncli, cn>>
 
@@ -279,12 +307,12 @@ CWwwAlt(c, pk, g, f) ==
   /\ cli.st = "vas" /\ cli.spk = None /\ pk # None
   /\ g = Sg(pk, "srv", cli.chS, "kC", cli.host)
   /\ op' = [name |-> "cwww", c |-> c, pk |-> pk, sig |-> g, alt |-> f, res |-> "err", reports |-> None, signed |-> NoSig]
-  /\ UNCHANGED <<now, ops, sigs, cli, ncli, cn>>   \* (an undecodable key is not remembered; a wrong signature changes nothing)
+  /\ UNCHANGED <<now, ops, sigs, cli, ncli, cn, cache>>   \* (an undecodable key is not remembered; a wrong signature changes nothing)
 CInfoAlt(g, f) ==
   /\ cli.st = "vc" /\ f # "pk"
   /\ g = Sg(cli.spk, "srv", cli.chS, "kC", cli.host)
   /\ op' = [name |-> "cinfo", sig |-> g, alt |-> f, res |-> "err", reports |-> None]
-  /\ UNCHANGED <<now, ops, sigs, cli, ncli, cn>>
+  /\ UNCHANGED <<now, ops, sigs, cli, ncli, cn, cache>>
 
 (* ---------------------------------- next-state ---------------------------------- *)
 
@@ -303,7 +331,8 @@ AttackServer ==
           \/ Bearer(s, h, o)
           \/ \E f \in OpaqueAlts : BearerAlt(s, h, o, f)
 
-Client == \/ \E h \in Hosts, m \in {"ci", "si"} : CStart(h, m)
+Client == \/ \E h \in CliHosts, m \in {"ci", "si", "tok"} : CStart(h, m)
+          \/ \E st \in {"200", "403", "500"} : CTokOther(st)
           \/ \E c \in ChalsForC, pk \in PubsForC, g \in SigsForC :
                \/ CWww(c, pk, g)
                \/ \E f \in CAlts : CWwwAlt(c, pk, g, f)
@@ -320,7 +349,7 @@ Bound == NTok <= MaxTok
 
 TypeOK == /\ now \in 0..MaxT /\ ncli \in 0..MaxCli /\ cn \in Nat
           /\ \A o \in ops : o.mac \in Servers /\ o.t <= now /\ o.host \in Hosts
-          /\ cli.st \in {"idle", "vas", "sc", "vc", "wfb", "done"}
+          /\ cli.st \in {"idle", "vas", "sc", "vc", "wfb", "done", "tok", "tdone"}
           /\ (~Explicit => sigs = {})
 
 \* Who has produced signature g.  A signs anything with its own key.  Explicit: an honest agent
@@ -379,6 +408,14 @@ ClientOpReportsP(r, c) ==
       /\ Signed(Sg(r.reports, "srv", c.chS, "kC", c.host))
 ClientOpReports == [][ClientOpReportsP(op', cli')]_vars
 
+(* Token cache: what C remembers for a hostname was proven for exactly that hostname, and a peer    *)
+(* reported on the strength of the cache is the one remembered for exactly the request's hostname.    *)
+CacheProven == \A e \in cache : Signed(Sg(e.spk, "srv", e.chS, "kC", e.host))
+TokReportsP(r, C) ==
+  /\ (r.name = "ctok") => \E e \in C : e.host = r.host /\ e.spk = r.reports
+  /\ (r.name = "cstart" /\ r.mode = "tok") => r.tokhost = r.host     \* a token goes only to the hostname it was issued for
+TokReports == [][TokReportsP(op', cache)]_vars
+
 (* honest agents only sign their own kind (no reflection): servers "srv", C "cli" *)
 KindsSeparate == \A g \in sigs : (g.key \in SrvKeys => g.kind = "srv") /\ (g.key = "kC" => g.kind = "cli")
 
@@ -388,4 +425,5 @@ ReachBearerC == [][~(op'.name = "bearer" /\ op'.res = "ok" /\ op'.peer = "kC")]_
 ReachExpiredTok == [][~(op'.name = "bearer" /\ op'.res = "expired")]_vars
 ReachExpiredChal == [][~(op'.name = "verify" /\ op'.res = "expired")]_vars
 ReachClientDoneS == ~(cli.st = "done" /\ cli.spk = "kS")
+ReachTokReport == ~(cli.st = "tdone")
 =============================================================================
